@@ -448,6 +448,14 @@ fn cmd_print(args: &Args) {
     let mut cases = vec![];
     for run in 0..count {
         let mut p = gen_family(&mut rng, &args.get("family", "mixed"), args.num("nmax", 8) as usize);
+        if run % 5 == 4 {
+            // many cones of one type (the header abbreviates lists longer than five)
+            let k = rng.gen_range(4..=9);
+            let mut cones: Vec<problem::ConeSpec> = (0..k).map(|_| problem::ConeSpec::Soc(rng.gen_range(2..=5))).collect();
+            if rng.gen::<bool>() { cones.insert(rng.gen_range(0..cones.len()), problem::ConeSpec::Nonneg(2)); }
+            if rng.gen::<bool>() { for _ in 0..rng.gen_range(1..=7) { cones.push(problem::ConeSpec::Exp); } }
+            p = gen::planted_with_cones(&mut rng, &gen::GenOpts::default(), 3, cones);
+        }
         p.settings = gen::random_settings(&mut rng, p.is_symmetric());
         // infinite bounds so that the presolve line is exercised
         if rng.gen::<f64>() < 0.3 {
